@@ -19,6 +19,11 @@
 (*           none/failure/error/both, odd = [cp, got]: for every character   *)
 (*           of the test's own name outside printable ASCII the code points  *)
 (*           the report has in its place                                     *)
+(*   reldir = the literal --xml option when it was a relative path ("" when  *)
+(*           absolute): files are then what was found under                  *)
+(*           <working directory at the start>/<option>/testreports - the     *)
+(*           directory is fixed when the options are read, not by where the  *)
+(*           tests leave the process (XmlReport!ResolveAtConfigure)          *)
 (* Which code points and classes XML 1.0 allows is XmlReport!XmlChar /       *)
 (* XmlReport!LegalChar - the harness supplies numbers and labels only.       *)
 EXTENDS Naturals, Sequences, FiniteSets, TLC, Json, IOUtils, SequencesExt
@@ -91,6 +96,10 @@ Verdict(r) ==
       extra == {j \in T : \/ NCases(r, r.tests[j].t, {"failure", "both"}) > nf(j)
                           \/ NCases(r, r.tests[j].t, {"error", "both"}) > ne(j)}
       subs(j) == \E e \in ToSet(r.tests[j].ref) : e \in {"SF", "SE"}
+      \* a test that ran and owes the reports an entry has none in the requested directory
+      nowhere == {j \in T : /\ Iters(r, j) > 0
+                            /\ Passed(r.tests[j].ref) \/ nf(j) > 0 \/ ne(j) > 0
+                            /\ NCases(r, r.tests[j].t, {"none", "failure", "error", "both"}) = 0}
   IN IF r.crashed # "" THEN <<"C17:run-aborted", r.crashed>>
      ELSE IF mal # {} THEN <<"C17:malformed",
                              IF badprobes # {}
@@ -100,6 +109,7 @@ Verdict(r) ==
                              ELSE "although-only-legal-characters">>
      ELSE IF cnt # {} THEN <<"C17:count", r.files[CHOOSE f \in cnt : TRUE].file>>
      ELSE IF impmiss # {} THEN <<"C17:import-failure-missing", r.imports[CHOOSE j \in impmiss : TRUE].module>>
+     ELSE IF r.reldir # "" /\ nowhere # {} THEN <<"C17:report-missing", "relative-dir">>
      ELSE IF passmiss # {} THEN <<"C17:pass-missing", r.tests[CHOOSE j \in passmiss : TRUE].t>>
      ELSE IF passtwice # {} THEN <<"C17:pass-twice", r.tests[CHOOSE j \in passtwice : TRUE].t>>
      ELSE IF identity # {}
